@@ -83,7 +83,7 @@ PROPS = {
              "3 operations including an in-place mutation. Distinct: hash of the operation list.",
         state_measure="distinct vectors (type, array length, number of alias edges) over the 4 handles",
         probes=["caller_slice_mutated", "setbyindex_past_end", "clone_of_array", "equals_on_arrays", "mutate_with_alias_edges", "element_mutated_in_place", "nested_deeper_than_60", "nil_element_written", "caller_slice_appended", "element_object_twice_in_one_array"] + ["host_" + h for h in
-               ["int", "int32", "uint", "uint32", "int64", "float32", "float64", "bool", "string", "time", "duration", "array", "variant", "nil", "struct", "slice", "map", "goarray", "structslice", "ptr", "ifacestruct", "func", "variantvalue"]],
+               ["int", "int32", "uint", "uint32", "int64", "float32", "float64", "bool", "string", "time", "duration", "array", "variant", "nil", "struct", "slice", "map", "goarray", "structslice", "ptr", "ifacestruct", "func", "variantvalue", "nilptr", "nilvariant"]],
         real=["variants.Variant"],
         stub=[],
         assumptions=["value model with explicit aliasing: only clones and list setters must be independent; Assign and construction from another "
